@@ -160,11 +160,13 @@ func c11Outs(k c11Cfg, quick bool) []c11Out {
 		}
 	}
 	if k.Redis {
-		for _, f := range []string{"del-err", "del-lost"} {
+		// "outage": the store fails EVERY call of the sign-out request without effect (the
+		// loader's read and clean-up as well as the handler's delete), and works again afterwards
+		for _, f := range []string{"del-err", "del-lost", "outage"} {
 			for _, stale := range []string{"", "stale"} {
 				for _, m := range []string{"GET", "POST"} {
 					for _, rd := range []bool{false, true} {
-						if quick && ((m == "GET") == rd || (f == "del-lost" && stale != "")) {
+						if quick && ((m == "GET") == rd || (f != "del-err" && stale != "")) {
 							continue
 						}
 						out = append(out, c11Out{Method: m, Rd: rd, Stale: stale, Fault: f})
@@ -686,6 +688,10 @@ func c11SignOut(w *c11World, r *c11Result) {
 		r.KeysBefore = len(w.px.Redis.SessionKeys())
 		if o.Fault != "" {
 			w.px.Redis.Intercept = func(c *world.StoreCall) *world.StoreFault {
+				if o.Fault == "outage" {
+					r.FaultDelivered = true
+					return &world.StoreFault{Kind: "outage", BeforeErr: errors.New("store unreachable")}
+				}
 				if c.Op != "DEL" {
 					return nil
 				}
@@ -728,7 +734,7 @@ func c11SignOut(w *c11World, r *c11Result) {
 		}
 	}
 
-	faultNoRemoval := o.Fault == "del-err" && r.FaultDelivered
+	faultNoRemoval := (o.Fault == "del-err" || o.Fault == "outage") && r.FaultDelivered
 
 	// (1) every presented session cookie is gone
 	inJar := func(ck *world.Cookie) *world.Cookie {
